@@ -456,6 +456,15 @@ def replay_known(ctx, info_all, excl, assume):
     if res is not None:
         ctx.violation({'fn': 'ir_to_object', 'target': 'riscv_rvc', 'class': 'AssertionError@arch/token.py:__setitem__',
                        'exception': res[0], 'message': res[1], 'ir': 'i32 a = -2049; return a >> x'})
+    # register pressure: 16..100 live values across a call, every target (spill code generation)
+    for tname, march in TARGETS:
+        for (k, na) in ((16, 0), (64, 6), (100, 8)):
+            n += 1
+            res = rp.try_compile(rp.pressure_module(k, na), march)
+            if res is not None:
+                ctx.violation({'fn': 'alloc_frame', 'target': tname, 'class': '%s under register pressure' % res[0],
+                               'key': 'pressure %s %s' % (tname, res[0]), 'exception': res[0], 'message': res[1],
+                               'ir': 'props.c29_replay.pressure_module(%d, %d)' % (k, na)})
     ctx.cov['stages']['known_witnesses_reexecuted'] = n
     if stale:
         ctx.cov['stages']['stale_exclusions(now compile)'] = stale
@@ -500,9 +509,9 @@ def try_tree(tree_text, march):
 
 
 # ---------------------------------------------------------------- diagnosis of a failed closure lemma
-def diagnose(ctx, info_all, excl, build_out=''):
+def diagnose(ctx, info_all, excl, build_out='', built=False):
     """which operator became uncovered?  Evaluate Model.C29Cases.diag_<t>, replay each tree on the implementation"""
-    if not ctx.build(['Model/C29Cases.vo'])[0]:
+    if not built and not ctx.build(['Model/C29Cases.vo'])[0]:
         return
     failing = set(re.findall(r'Proofs/C29_(\w+)\.v"', build_out)) & {t for t, _ in TARGETS}
     for tname, march in TARGETS:
@@ -532,7 +541,7 @@ def diagnose(ctx, info_all, excl, build_out=''):
 def correspondence(ctx, tname, info, assume, h):
     sel, order = stripped_system(info, assume.get(tname, []))
     shapes = sorted(h.shapes, key=lambda s: (-h.shapes[s], shape_str(s)))
-    limit = 700 if ctx.quick() else 4000
+    limit = 400 if ctx.quick() else 4000
     chosen = shapes[:limit]
     for s in h.failed_shapes:
         if s not in chosen:
@@ -569,16 +578,16 @@ def run(ctx):
     info_all = regen(ctx)
     excl, assume = known_lists()
     proofs = ['Proofs/C29_cover.vo'] + ['Proofs/C29_%s.vo' % t for t, _ in TARGETS] + ['Proofs/C29_refuted.vo']
-    ok, out = ctx.build(proofs)
+    ok, out = ctx.build(proofs + ['Model/C29Cases.vo'])     # one make call: the build lock is shared
+    cases_ok = os.path.exists(os.path.join(COQ, 'Model', 'C29Cases.vo')) and 'Model/C29Cases.v"' not in out
     if ok:
         ctx.check_props('Props/C29.v')
     else:
-        diagnose(ctx, info_all, excl, out)
+        diagnose(ctx, info_all, excl, out, built=cases_ok)
     # known witnesses (cheap) and the corpus
     replay_known(ctx, info_all, excl, assume)
     deep = (not ctx.quick()) or bool(ctx.failed_stages)
-    nmods = 600 if not ctx.quick() else 60
-    cases_ok = ctx.build(['Model/C29Cases.vo'])[0]
+    nmods = 600 if not ctx.quick() else 50
     import time
     for tname, march in TARGETS:
         t0 = time.time()
